@@ -57,12 +57,13 @@ Fixpoint first_rename_all (ms : list cmeta) : option str :=
 Definition container_rule (c : container) : option rule :=
   match first_rename_all (concat (c_attrs c)) with Some v => rule_of_str v | None => None end.
 
+(* serde_derive names an item by its unraw identifier (r#type is the field type) *)
 Definition wire_name (k : kind) (ra : option rule) (it : item) : str :=
   match rename_of it with
   | Some v => v
   | None => match ra with
-            | None => it_ident it
-            | Some r => if is_struct k then field_rule r (it_ident it) else variant_rule r (it_ident it)
+            | None => unraw (it_ident it)
+            | Some r => if is_struct k then field_rule r (unraw (it_ident it)) else variant_rule r (unraw (it_ident it))
             end
   end.
 (* names that can appear on the wire, in declaration order: skipped items never do *)
@@ -82,7 +83,8 @@ Definition c06_ok (c : container) (observed : list str) : bool := strs_eqb obser
 Definition is_digit (c : ascii) : bool := (48 <=? nb c)%N && (nb c <=? 57)%N.
 Definition ident_start (c : ascii) : bool := is_lower c || is_upper c || is_us c.
 Definition ident_char (c : ascii) : bool := ident_start c || is_digit c.
-(* a Rust identifier over ASCII with at least one character that is not an underscore *)
+(* a Rust identifier over ASCII with at least one character that is not an underscore; an item
+   identifier may carry the raw prefix (item_ok tests the unraw form) *)
 Definition ident_ok (s : str) : bool :=
   match s with [] => false | c :: _ => ident_start c end && forallb ident_char s && existsb (fun c => negb (is_us c)) s.
 Definition count_renames (ms : list meta) : nat := List.length (filter (fun m => match m with MRename _ => true | _ => false end) ms).
@@ -92,7 +94,7 @@ Definition other_ok (m : meta) : bool :=
   | _ => true
   end.
 Definition item_ok (it : item) : bool :=
-  ident_ok (it_ident it) && forallb other_ok (concat (it_attrs it)) && Nat.leb (count_renames (concat (it_attrs it))) 1.
+  ident_ok (unraw (it_ident it)) && forallb other_ok (concat (it_attrs it)) && Nat.leb (count_renames (concat (it_attrs it))) 1.
 Definition cmeta_ok (m : cmeta) : bool :=
   match m with
   | CRenameAll v => match rule_of_str v with Some _ => true | None => false end
